@@ -12,7 +12,7 @@ import (
 func init() { vs.RegisterHarness("VerifC10EndBlocker", VerifC10EndBlocker) }
 
 // VerifC10EndBlocker: the module's EndBlocker (no pending or expiring groups) from an arbitrary signing state:
-// same specification as keeper.VerifC10EndBlock.
+// same specification as keeper.VerifC10EndBlockOne.
 func VerifC10EndBlocker() {
 	keeper.VerifC10EndBlockWith(func(ctx sdk.Context, k *keeper.Keeper) {
 		vs.Assert("end-blocker-no-error", EndBlocker(ctx, k) == nil)
